@@ -1858,6 +1858,7 @@ static void generate(Plan &plan, uint64_t seed, int tier) {
                 op.a[0] = first.a[0];
                 op.a[5] = (int64_t)((1 << 20) + (1 << 19) + ops.below(600000));
                 plan.ops.push_back(op);
+                plan.cfg["soft_budget"] = 1; // megabytes copied by a scalar byte loop: heavy, not hung
                 break; // (the history ends here: every further step would compare megabytes again)
             }
         }
